@@ -6,13 +6,31 @@
 (*  {"ev":"link"}                                                           *)
 (*  {"ev":"delivered","id":I,"identical":B}   I = index of the sent frame    *)
 (*        with exactly these bytes (0 = no sent frame has these bytes)       *)
-(*  {"ev":"end","sent":N,"touched":[ids],"breaks":B,"closed":B,"stalled":B,  *)
-(*   "resumed":B,"clear":B}                                                  *)
+(*  {"ev":"end","sent":N,"touched":[ids],"breaks":B,"unsync":B,"closed":B,   *)
+(*   "stalled":B,"resumed":B,"clear":B}                                      *)
 (*     touched = frames a fault was applied to (or that were dropped)        *)
 (*     breaks  = some fault broke the framing                                *)
 (*     resumed = a frame sent after the last fault was delivered             *)
 (*     stalled = the reader neither delivered nor closed within the bound    *)
 (*     clear   = some 16-byte window of a payload was seen on the wire       *)
+(*     unsync  = (old links only) a well-framed unit that is no frame of     *)
+(*               this direction carried a clear sequence number <= 255       *)
+(*               while the receiver was within 256 of the 2^32 wrap and had  *)
+(*               not seen the sender's wrap: the code takes it for the wrap  *)
+(*               and changes the incoming key before authenticating (known,  *)
+(*               KeyRollover!ForgedTrigger); the frames the sender seals up  *)
+(*               to its own wrap are lost.  Such an end is judged like a     *)
+(*               framing break: closed, or deliveries resumed.               *)
+(* Old links: the "link" may have a long past - its link sequence numbers    *)
+(* are next to the 2^32 wrap where both ends move to the next key (the       *)
+(* driver moves the counters of the real link sessions after the handshake   *)
+(* and sends a few frames of recent past, which are frames 1..h of this      *)
+(* link).  Nothing changes in what is demanded: ids are positions in the     *)
+(* sequence of frames handed to the link, whatever their sequence numbers;   *)
+(* a frame sealed before the wrap that was put on the wire behind a frame    *)
+(* sealed after it is listed in touched (reordering across the wrap).  The   *)
+(* opposite, undisturbed direction of such a link is a "link" segment of     *)
+(* its own (events carry a "note").                                          *)
 (* Successor links: the two routers of a "link" event may have had links     *)
 (* before (each with a "link" event of its own).  The frames handed to a     *)
 (* link are numbered per link: what arrives on this link and is a frame of   *)
@@ -36,8 +54,8 @@ Delivered == /\ Ev.ev = "delivered"
              /\ got' = got \cup {Ev.id}
 EndOK == /\ ~Ev.clear                                                   \* no payload bytes in clear on the wire
          /\ ~Ev.stalled                                                 \* intact later frames keep arriving or the link is closed
-         /\ (~Ev.breaks /\ ~Ev.closed) => (1..Ev.sent) \ ToSet(Ev.touched) \subseteq got
-         /\ Ev.breaks => (Ev.closed \/ Ev.resumed)
+         /\ (~Ev.breaks /\ ~Ev.unsync /\ ~Ev.closed) => (1..Ev.sent) \ ToSet(Ev.touched) \subseteq got
+         /\ (Ev.breaks \/ Ev.unsync) => (Ev.closed \/ Ev.resumed)
 End == Ev.ev = "end" /\ EndOK = TRUE /\ UNCHANGED got
 
 TraceNext == l <= Len(Trace) /\ l' = l + 1 /\ (Link \/ Delivered \/ End)
